@@ -22,7 +22,10 @@ SAN_FLAGS = ["-fsanitize=address,undefined", "-fno-sanitize=enum", "-fno-sanitiz
 FLAVOURS = {
     "asan": BASE_FLAGS + SAN_FLAGS,
     "fuzz": BASE_FLAGS + SAN_FLAGS + ["-fsanitize=fuzzer-no-link"],
+    # line coverage of /repo/src under the generated cases (tools/coverage.sh; never used by a registered command)
+    "cov": BASE_FLAGS + SAN_FLAGS + ["-fprofile-instr-generate", "-fcoverage-mapping"],
 }
+RUN_FLAVOUR = os.environ.get("VERIF_FLAVOUR", "asan")
 LIBS = ["-lgmpxx", "-lgcrypt", "-lgpg-error", "-lgmp", "-ldl", "-lpthread"]
 ASAN_ENV = "detect_leaks=0:abort_on_error=0:allocator_may_return_null=1:max_allocation_size_mb=2048:detect_stack_use_after_return=0"
 UBSAN_ENV = "print_stacktrace=1:halt_on_error=1"
@@ -254,7 +257,7 @@ def run_property(prop, tier, seed):
     if meta.get("engine") == "fuzz":
         import fuzzdrv
         return fuzzdrv.run_property(sys.modules[__name__], prop, tier, seed, meta)
-    exe = build([prop])[prop]
+    exe = build([prop], RUN_FLAVOUR)[prop]
     rundir = os.path.join(BUILD, "run", "%s-%s-%d" % (prop, tier, os.getpid())); shutil.rmtree(rundir, ignore_errors=True); os.makedirs(rundir)
     known_file = write_known_file(prop, rundir)
     known = known_for(prop)
